@@ -242,6 +242,15 @@ def lua_sources(tier):
     for name, tail in (('cr', b'\r'), ('crcr', b'\r\r'), ('tab', b'\t'), ('space', b' '), ('lfcr', b'\n\r'),
                        ('cr-only-lines', b'\ry=2\rz=3\r'), ('crlfcr', b'\r\n\r')):
         out.append(('final-' + name, b'x=1' + tail))
+    # lines that contain a section-header-like word but do not READ as a header (a header line is exactly
+    # '__name__' + LF): valid Lua that starts with / contains __name__
+    for nm in (b'lua', b'gfx', b'label', b'gff', b'map', b'sfx', b'music', b'init', b'x1'):
+        w = b'__' + nm + b'__'
+        forms = [w + b'=1\n', w + b'x=2\n', w + b'w,' + w + b'h=128,32\n', b' ' + w + b'=1\n', b'x=' + w + b'\n',
+                 b'--' + w + b'\n', b'x=[[\n' + w + b' holds\n]]\n', b'--[[\n' + w + b'.\n]]\n', w + b'()\n',
+                 w[:-1] + b'=1\n', w[1:] + b'=1\n']
+        for fi, form in enumerate(forms):
+            out.append(('near-header-%s-%d' % (nm.decode(), fi), b'a=1\n' + form + b'z=3\n'))
     return out
 
 
